@@ -109,6 +109,8 @@ func newAuthorizer(kind string, log *callLog) runtime.Authorizer {
 			return oerr.New(409, "authz-denied-409")
 		case "deny401":
 			return oerr.New(401, "authz-denied-401")
+		case "denywrap":
+			return fmt.Errorf("policy check: %w", oerr.New(409, "authz-denied-409"))
 		}
 		return nil
 	})
@@ -452,7 +454,7 @@ func matchAuthorize(alts []Alt, o Outcome, vec Vec, authz string, usr interface{
 		if authzDenies(authz) {
 			st, msg := authzExpect(authz)
 			e, coded := err.(oerr.Error)
-			if !coded || int(e.Code()) != st || e.Error() != msg || usr != nil {
+			if !coded || !authzAnswerOK(authz, int(e.Code()), e.Error()) || usr != nil {
 				return fmt.Sprintf("want the authorizer's error %d %q", st, msg)
 			}
 			return ""
